@@ -77,13 +77,31 @@ re-validation does with them depends on their `LYD_NEW` flags and on the cases o
 def staleDefaults (S : Schema) (x y : List DNode) : Bool :=
   !subForest S (heightL x + 1) (dfltPartL S x) y
 
+mutual
+/-- like `explicit`, but a leaf with its schema default value counts as absent whether it is flagged or not: after
+re-validation an explicit leaf with the default value and the implicit default leaf compare equal (values only) -/
+def explicitD (S : Schema) : DNode → Option DNode
+  | .inner s f m ks =>
+    let ks' := explicitDL S ks
+    if S.isNpCont s && ks'.isEmpty then none else some (.inner s f m ks')
+  | .term s f m v => if (f.dflt || S.isKind s .leaf) && isSchemaDflt S s v then none else some (.term s f m v)
+def explicitDL (S : Schema) : List DNode → List DNode
+  | [] => []
+  | n :: ns =>
+    match explicitD S n with
+    | some n' => n' :: explicitDL S ns
+    | none => explicitDL S ns
+end
+
 /-- equality of data trees at C13's observation point; `dflt`: the diffs were made with `LYD_DIFF_DEFAULTS` -/
 def obsEq (S : Schema) (dflt : Bool) (x y : List DNode) : Bool :=
   if dflt then dataEqL true x y else dataEqL false (explicitL S x) (explicitL S y)
 
 /-- the verdict token of the driver: `same | differs | unknown` -/
 def obsVerdict (S : Schema) (dflt : Bool) (x y : List DNode) : String :=
-  if !obsEq S dflt x y then "differs"
+  if !obsEq S dflt x y then
+    -- the explicit parts differ only in leaves that have their schema default value: depends on re-validation
+    if !dflt && dataEqL false (explicitDL S x) (explicitDL S y) then "unknown" else "differs"
   else if !dflt && staleDefaults S x y then "unknown"
   else "same"
 
